@@ -118,6 +118,9 @@ func (t *target) decide(c *caseSpec, args []reflect.Value) int {
 }
 
 func (t *target) base(b *mocker.Builder) mocker.ExportedMocker {
+	if t.iface != "" {
+		return b.Interface(&siv).Method(t.iface).As(t.as)
+	}
 	if t.method == "" {
 		return b.Func(t.fn)
 	}
@@ -223,7 +226,8 @@ func runCase(ci interface{}, s *vkit.Stats, prop string) error {
 		return nil
 	}
 	b := mocker.Create()
-	defer b.Reset()
+	siv = nil
+	defer func() { b.Reset(); siv = nil }()
 	var w *mocker.When
 	if pv := guard(func() { w = t.configure(b, c) }); pv != nil {
 		return fmt.Errorf("%s: configuring the well-formed stub set panicked: %v", t.name, pv)
@@ -294,7 +298,7 @@ func runCase(ci interface{}, s *vkit.Stats, prop string) error {
 			}
 		}
 		// non-variadic plain functions: When.Eval must agree with the call (only without sequences: Eval consumes elements)
-		if c.Eval && !t.variadic && t.method == "" && seqLen(stub) == 1 {
+		if c.Eval && !t.variadic && t.method == "" && t.iface == "" && seqLen(stub) == 1 {
 			var ev []interface{}
 			if pv := guard(func() { ev = w.Eval(ifaces(args)...) }); pv != nil {
 				return fmt.Errorf("%s: When.Eval panicked: %v", where, pv)
@@ -326,6 +330,9 @@ func runCase(ci interface{}, s *vkit.Stats, prop string) error {
 		}
 		if t.method != "" {
 			s.Class("method")
+		}
+		if t.iface != "" {
+			s.Class("interface-method")
 		}
 		if k >= 1 {
 			s.Class("sequence/element>=1")
